@@ -334,7 +334,9 @@ class LocSlice(LocBase):
             stop = _get_partitions(self.frame, self.iindexer.stop)
         else:
             stop = self.frame.npartitions - 1
-        return stop
+        # A slice whose stop lies before its start selects nothing; keep the
+        # (then empty) partition of start so that the result is well formed
+        return max(stop, self.start)
 
     @functools.cached_property
     def istart(self):
@@ -362,6 +364,9 @@ class LocSlice(LocBase):
 
     def _divisions(self):
         if self.stop == self.start:
+            if self.istop < self.istart:
+                # empty selection: divisions must stay sorted
+                return (self.istart, self.istart)
             return (self.istart, self.istop)
 
         if self.iindexer.start is None:
